@@ -12,7 +12,7 @@ SPECDIRS = ("c10",)
 
 ALLOPS = '{"=", "<", "<=", ">", ">="}'
 OPS3 = '{"=", "<=", ">"}'          # with both sides these are all five effective bounds
-ALLFORMS = '{"int", "rfc", "dt", "date", "dur", "now", "intm", "intp", "rfcm", "rfcp"}'
+ALLFORMS = '{"int", "rfc", "dt", "date", "dur", "now", "intm", "intp", "rfcm", "rfcp", "revrfc", "revdt"}'
 
 
 def cfg(ctx, edge=False, maxatoms=2, minemit=1, maxt=4, bases="{2, 3}", offn=1, ops=ALLOPS, sides='{"L", "R"}',
@@ -134,12 +134,17 @@ def pipeline(ctx, genmodule, suite, judgemodule, judgecfg, parts, unit, sample, 
             t0 = time.time()
             cfz = ctx.path("cases_%s_z%d.ndjson" % (names, z))      # the zone travels in the case (a replay needs no environment)
             with open(cf, encoding="utf-8") as g, open(cfz, "w", encoding="utf-8") as out:
-                for line in g:
+                for zi, line in enumerate(g):
                     c = json.loads(line)
                     if isinstance(c, str):
                         c = json.loads(c)
                     c["zmin"] = str(z)
                     out.write(json.dumps(c, ensure_ascii=False) + "\n")
+                    # ... and once more under ANOTHER zone in the same process: what a zone-less string means depends on the
+                    # zone of the call, not on the calls made before it
+                    if zi % 3 == 0:
+                        c2 = dict(c, zmin=str(330 if z != 330 else -300))
+                        out.write(json.dumps(c2, ensure_ascii=False) + "\n")
             ctx.drive(suite, cfz, ofz)
             os.remove(cfz)
             vs = pjudge(ctx, judgemodule, judgecfg(batch[0][0]["group"]), ofz, names + "_z%d" % z, parts=4 if ctx.quick else 8)
